@@ -5,6 +5,7 @@ import (
 	"bytes"
 	"context"
 	"encoding/binary"
+	"errors"
 	"fmt"
 	"io"
 	"os"
@@ -87,6 +88,10 @@ const (
 	// that record sizes must be less than 2^31.
 	deletedBit = uint32(1 << 31)
 )
+
+// errRecordDeleted is returned when reading a record list that GC has marked
+// as deleted.
+var errRecordDeleted = errors.New("index record list is deleted")
 
 // stripBucketPrefix removes the prefix that is used for the bucket.
 //
@@ -833,7 +838,11 @@ func (idx *Index) readDiskBucket(indexOffset types.Position, fileNum uint32) (Re
 	if _, err = file.ReadAt(sizeBuf, int64(indexOffset-4)); err != nil {
 		return nil, err
 	}
-	data := make([]byte, binary.LittleEndian.Uint32(sizeBuf))
+	size := binary.LittleEndian.Uint32(sizeBuf)
+	if size&deletedBit != 0 {
+		return nil, errRecordDeleted
+	}
+	data := make([]byte, size)
 	if _, err = file.ReadAt(data, int64(indexOffset)); err != nil {
 		return nil, err
 	}
@@ -848,24 +857,38 @@ func (idx *Index) Get(key []byte) (types.Block, bool, error) {
 		return types.Block{}, false, err
 	}
 
-	// Here we just need an RLock since there will not be changes over buckets.
-	// So, do not use getRecordsFromBucket and instead only wrap this line of
-	// code in the RLock.
-	idx.bucketLk.RLock()
-	cached, indexOffset, fileNum, err := idx.readBucketInfo(bucket)
-	idx.bucketLk.RUnlock()
-	verifhook.Yield("index.Get.afterReadBucketInfo")
-	if err != nil {
-		return types.Block{}, false, fmt.Errorf("error reading bucket: %w", err)
-	}
 	var records RecordList
-	if cached != nil {
-		records = NewRecordListRaw(cached)
-	} else {
-		records, err = idx.readDiskBucket(indexOffset, fileNum)
+	var readErr error
+	var lastOffset types.Position
+	var lastFileNum uint32
+	for {
+		// Here we just need an RLock since there will not be changes over
+		// buckets. So, do not use getRecordsFromBucket and instead only wrap
+		// this line of code in the RLock.
+		idx.bucketLk.RLock()
+		cached, indexOffset, fileNum, err := idx.readBucketInfo(bucket)
+		idx.bucketLk.RUnlock()
+		verifhook.Yield("index.Get.afterReadBucketInfo")
 		if err != nil {
-			return types.Block{}, false, fmt.Errorf("error reading index records from disk: %w", err)
+			return types.Block{}, false, fmt.Errorf("error reading bucket: %w", err)
 		}
+		if cached != nil {
+			records = NewRecordListRaw(cached)
+			break
+		}
+		if readErr != nil && indexOffset == lastOffset && fileNum == lastFileNum {
+			// The bucket still refers to the record list that could not be read.
+			return types.Block{}, false, fmt.Errorf("error reading index records from disk: %w", readErr)
+		}
+		records, readErr = idx.readDiskBucket(indexOffset, fileNum)
+		if readErr == nil {
+			break
+		}
+		// The file is read without holding the bucket lock. If a flush
+		// superseded the record list after its position was read, then GC may
+		// already have reclaimed it. Look again: the read only failed if the
+		// bucket still has the same position.
+		lastOffset, lastFileNum = indexOffset, fileNum
 	}
 	if records == nil {
 		return types.Block{}, false, nil
